@@ -20,7 +20,8 @@ import (
 
 // the last three symbols are the bytes of the markers one by one: with them a string can contain a marker cut in
 // two by another marker ("\xe2‹\x80\xb9"), which deleting the inner one puts together
-var c07Alphabet = []string{"‹", "›", "×", "\n", "a", "\xe2", "\x80", "\xb9", "\xba"}
+// U+FFFD, validly encoded, is what a rune loop also reports for an invalid byte (seed C07-8)
+var c07Alphabet = []string{"‹", "›", "×", "\n", "a", "\xe2", "\x80", "\xb9", "\xba", "\ufffd"}
 
 func c07Fail(t *testing.T, call, out, why string) {
 	m, _ := json.Marshal(map[string]string{"property": "C07", "call": call, "output": fmt.Sprintf("%q", out), "why": why})
